@@ -70,8 +70,20 @@ type Walker[S any] struct {
 	Paths       int
 	Overflow    bool
 	Unsupported []token.Pos // goto / fallthrough / select encountered
+
+	defers []*ast.DeferStmt // defer statements executed on the path being explored
 	// LoopUnroll: how many iterations to explore at most (default 1).
 	LoopUnroll int
+}
+
+// PendingDefers returns, inside Exit, the defer statements executed on the
+// path that is exiting, innermost (last executed = first to run) first.
+func (w *Walker[S]) PendingDefers() []*ast.DeferStmt {
+	out := make([]*ast.DeferStmt, 0, len(w.defers))
+	for i := len(w.defers) - 1; i >= 0; i-- {
+		out = append(out, w.defers[i])
+	}
+	return out
 }
 
 func (w *Walker[S]) Run(body *ast.BlockStmt, st S) {
@@ -218,7 +230,11 @@ func (w *Walker[S]) stmt(s ast.Stmt, st S, k cont[S]) {
 			}
 			st = s2
 		}
+		// everything that follows on this path is explored inside k (depth-first CPS),
+		// so the pending-defer stack is exact for the path that reaches Exit
+		w.defers = append(w.defers, x)
 		k(st, outcome{kind: cNormal})
+		w.defers = w.defers[:len(w.defers)-1]
 	case *ast.SelectStmt:
 		w.Unsupported = append(w.Unsupported, x.Pos())
 		k(st, outcome{kind: cNormal})
